@@ -573,6 +573,46 @@ func c12(r *core.Report) {
 			r.Check(isOnceDoLiteral(p, fn), "C12-IDEMPOTENT", c, p.Pos(ci.Pos()), "inside a literal passed to sync.Once.Do", "close of the closed-signal is not protected by sync.Once: a second Close panics")
 		}
 	}
+
+	// ---- C12-NO-RETRY: a loop around Receive/ServeAsk leaves the loop when the call fails.
+	// The error a closed swarm reports is not uniform across the module (net.ErrClosed, the
+	// hub's close reason, context.Canceled from fragswarm's workers), so a loop that calls
+	// again after an error spins on a closed swarm and its goroutine is never released.
+	r.Rule("C12-NO-RETRY", "every loop around a Receive/ServeAsk call exits on the call's error edge (no retry on a swarm that may be closed)", 9)
+	for _, fn := range p.ModFuncs {
+		if strings.Contains(fn.String(), "swarmtest") || strings.Contains(fn.String(), "p2ptest") {
+			continue
+		}
+		for _, in := range core.AllInstrs(fn) {
+			call, isCall := in.(*ssa.Call)
+			if !isCall || !core.IsErrorType(call.Type()) {
+				continue
+			}
+			cc := call.Common()
+			name := ""
+			if cc.IsInvoke() {
+				name = cc.Method.Name()
+			} else if sc := core.StaticCallee(cc); sc != nil && p.InModule(sc) {
+				name = sc.Name()
+				if i := strings.IndexByte(name, '['); i >= 0 {
+					name = name[:i]
+				}
+			}
+			if name != "Receive" && name != "ServeAsk" {
+				continue
+			}
+			// only calls that can run again: the call is reachable from itself
+			if !core.Reach(fn, call, nil, nil)[call] {
+				continue
+			}
+			r.Analysed(fn)
+			c := fmt.Sprintf("%s loop around %s", core.FnName(fn), name)
+			again := core.Reach(fn, call, cutErrNilOf(call), nil)[call]
+			r.Check(!again, "C12-NO-RETRY", c, p.Pos(call.Pos()),
+				"on the error edge of the call no path leads back to it",
+				"the loop calls "+name+" again after it returned an error: once the swarm underneath is closed (its closed error is not net.ErrClosed everywhere) the worker spins and is never released")
+		}
+	}
 }
 
 func fieldOwnerName(p *core.Prog, f *types.Var) string {
